@@ -57,6 +57,7 @@ def t_pragma_once(d):
         "/r/b.c": ['#include "o.h"', "#ifdef O_SEEN", "@", "#endif"],
         "/r/c.c": ["@", '#include "inc/../o.h"', "@"],
         "/r/o.h": ["#pragma once", "#define O_SEEN", "#ifdef X", "@", "#else", "@", "#endif"],
+        "/r/inc/unused.h": ["@"],  # (the directory named in "inc/../o.h" has to exist)
     }
     cmds = [scen.entry("/r/a.c", ["X"] if d[0] else []), scen.entry("/r/b.c", []), scen.entry("/r/c.c", ["X"] if d[1] else [])]
     return files, cmds
@@ -165,9 +166,6 @@ def h_iso(a0: int, a1: int, a2: int, perm: int, sel: int, d0: bool, d1: bool) ->
         if sel == k:
             s = k
     d = [bool(d0), bool(d1)]
-    STATS["compared"] += 1
-    if P.get("_twin"):
-        return False
     with scen.untraced():
         files, cmds = TEMPLATES[P["t"]](d)
         fs = scen.build_fs(files)
@@ -179,6 +177,11 @@ def h_iso(a0: int, a1: int, a2: int, perm: int, sel: int, d0: bool, d1: bool) ->
             exp, _ = ref_cpp.run_platforms(fs, conf)
         except ref_cpp.Diagnostic:
             return True
+        # (the reachability twin sits AFTER the reference ran: a template the reference rejects on every path
+        # must show up as vacuous, not as discharged)
+        STATS["compared"] += 1
+        if P.get("_twin"):
+            return False
         why = None
         try:
             full, _ = scen.run_cbi(fs, conf, members)
